@@ -208,7 +208,36 @@ class Sub:
     fuzz_procs: int = 4
 
 
+class CaseTimeout(Exception):
+    """The code under test did not return within VERIF_CASE_TIMEOUT_S (default 300 s, i.e. 10^3..10^5 times the normal
+    cost of a case): a hang detector, not a performance check.  Raised inside the case by SIGALRM, so it is recorded
+    like any other exception of the call that was running (failure kind exc:<what>:CaseTimeout, with a replay)."""
+
+
+def _alarm(signum, frame):
+    raise CaseTimeout("no result within the per-case watchdog limit")
+
+
 def run_case(sub: Sub, case, tier: str) -> Ctx:
+    import signal
+
+    limit = float(os.environ.get("VERIF_CASE_TIMEOUT_S", "300"))
+    armed = False
+    try:
+        old = signal.signal(signal.SIGALRM, _alarm)
+        signal.setitimer(signal.ITIMER_REAL, limit, 2.0)  # re-fires: an alarm swallowed inside a gc callback or __del__ is not lost
+        armed = True
+    except (ValueError, AttributeError):  # not the main thread / no SIGALRM: run without the watchdog
+        pass
+    try:
+        return _run_case(sub, case, tier)
+    finally:
+        if armed:
+            signal.setitimer(signal.ITIMER_REAL, 0)
+            signal.signal(signal.SIGALRM, old)
+
+
+def _run_case(sub: Sub, case, tier: str) -> Ctx:
     ctx = Ctx(sub.name, tier)
     try:
         sub.check(case, ctx)
